@@ -1,2 +1,286 @@
-#include "verif_celer.hh"
-int main(){return 0;}
+// Engine `dist` (property C15): random samplers respect their documented support, consume a
+// bounded number of random draws, and follow their analytic target distribution.
+//
+// Real code driven: every class in src/celeritas/random/distribution, Selector /
+// make_selector, TsaiUrbanDistribution, EnergyLossHelper + the gamma / Gaussian / Urban / delta
+// energy-loss samplers (through FluctuationParams built from small Material/Particle/Cutoff
+// params), and the direction helpers from_spherical / rotate.
+//
+// Oracles (all independent of the implementation; see dist_harness.hh / dist_run.hh):
+//   support       documented interval with documented open/closed ends, finite values
+//   draw count    exact for inverse-CDF samplers, relation 2(k+1) for Knuth's Poisson, x50
+//                 expected per sample for rejection samplers (plain streams), 1e6 watchdog
+//   distribution  chi-square against exact bin probabilities of the analytic CDF/PMF, exact
+//                 variance z-tests on mean and variance, two-stage verdict (p<1e-6 then an
+//                 independent 16N re-run must give p<1e-9)
+#include <cmath>
+#include <iostream>
+
+#include "dist_points_basic.hh"
+#include "dist_points_em.hh"
+
+using namespace distv;
+
+namespace
+{
+//---------------------------------------------------------------------------//
+// Direction helpers: deterministic functions, judged case by case.
+void direction_cases(Ctx& C, verif::Rng& g)
+{
+    auto& rep = C.rep;
+    constexpr double pi = 3.141592653589793;
+    u64 const n = C.args.budget(200000, 20000000);
+    double worst_fs = 0, worst_rot = 0, worst_polar = 0, worst_polar_near = 0;
+
+    // unit vector with exactly representable norm ~ 1 (long double normalisation)
+    auto unit_from = [](long double x, long double y, long double z) {
+        long double nn = std::sqrt(x * x + y * y + z * z);
+        return Array<double, 3>{double(x / nn), double(y / nn), double(z / nn)};
+    };
+    auto random_unit = [&] {
+        double mu = g.uniform(-1, 1), phi = g.uniform(0, 2 * pi);
+        long double s = std::sqrt(1 - (long double)mu * mu);
+        return unit_from(s * std::cos((long double)phi), s * std::sin((long double)phi), mu);
+    };
+
+    //---- from_spherical(costheta, phi): precondition -1 <= costheta <= 1
+    static double const cvals[] = {1.0, -1.0, 0.0, 1.0 - eps / 2, -1.0 + eps / 2, 1.0 - eps,
+                                   0.5, -0.5, 1e-300, -1e-300, 0.7071067811865476};
+    static char const* const cnames[] = {"+1", "-1", "0", "1-ulp", "-1+ulp", "1-2ulp", "0.5",
+                                         "-0.5", "tiny", "-tiny", "sqrt-half"};
+    for (u64 i = 0; i < n; ++i)
+    {
+        double c;
+        std::string cls;
+        if (i % 3 == 0)
+        {
+            int k = int((i / 3) % 11);
+            c = cvals[k];
+            cls = std::string("special:") + cnames[k];
+        }
+        else if (i % 3 == 1)
+        {
+            c = g.uniform(-1, 1);
+            cls = "random";
+        }
+        else
+        {
+            // near the poles: 1 - c log-uniform
+            double d = g.loguniform(1e-16, 1e-2);
+            c = (g.coin() ? 1 : -1) * (1 - d);
+            cls = "near-pole";
+        }
+        double phi;
+        switch (g.integer(0, 5))
+        {
+            case 0: phi = 0; break;
+            case 1: phi = 2 * pi; break;
+            case 2: phi = (g.integer(0, 8)) * pi / 4; break;
+            case 3: phi = g.uniform(-1e3, 1e3); break;
+            default: phi = g.uniform(0, 2 * pi); break;
+        }
+        try
+        {
+            auto v = from_spherical(c, phi);
+            double a[3] = {v[0], v[1], v[2]};
+            bool fin = std::isfinite(a[0]) && std::isfinite(a[1]) && std::isfinite(a[2]);
+            double err = fin ? norm_err(a) : inf;
+            if (fin)
+                worst_fs = std::max(worst_fs, err);
+            if (!(err <= tol_from_spherical) || v[2] != c)
+                rep.violation("C15/unit-vector/from_spherical",
+                              "from_spherical result is not a unit vector (or z != costheta)",
+                              {{"costheta", verif::hexd(c)}, {"phi", verif::hexd(phi)},
+                               {"result", jhex(a, 3)}, {"norm_error", err},
+                               {"tolerance", tol_from_spherical}, {"seed", C.args.seed},
+                               {"index", i}});
+            else
+                rep.held("from_spherical/" + cls);
+        }
+        catch (DebugError const& e)
+        {
+            rep.inconclusive("debug-assert: " + verif::describe(e));
+            rep.observe("assert:" + verif::describe(e));
+        }
+    }
+
+    //---- rotate(dir, rot): preconditions is_soft_unit_vector(dir), is_soft_unit_vector(rot)
+    for (u64 i = 0; i < n; ++i)
+    {
+        Array<double, 3> dir, rot;
+        std::string cls;
+        // scattered direction
+        switch (g.integer(0, 4))
+        {
+            case 0: dir = {0, 0, 1}; break;
+            case 1: dir = {0, 0, -1}; break;
+            case 2: {
+                double d = g.loguniform(1e-12, 1e-1), ph = g.uniform(0, 2 * pi);
+                dir = unit_from(d * std::cos(ph), d * std::sin(ph), g.coin() ? 1 : -1);
+                break;
+            }
+            default: dir = random_unit(); break;
+        }
+        int k = int(i % 10);
+        double sgn = g.coin() ? 1 : -1;
+        if (k == 0)
+        {
+            rot = {0, 0, sgn};
+            cls = "pole-exact";
+        }
+        else if (k == 1)
+        {
+            // components whose squares vanish next to z = +-1
+            double t = g.loguniform(1e-300, 1e-9), ph = g.uniform(0, 2 * pi);
+            rot = {t * std::cos(ph), t * std::sin(ph), sgn};
+            cls = "pole-subeps";
+        }
+        else if (k == 2 || k == 3)
+        {
+            // exactly normalised, polar angle below / around the accuracy switch (0.005)
+            double t = k == 2 ? g.loguniform(1e-8, 4.9e-3) : g.uniform(4.9e-3, 5.1e-3);
+            double ph = g.uniform(0, 2 * pi);
+            rot = unit_from(t * std::cos(ph), t * std::sin(ph), sgn * std::sqrt(1 - t * t));
+            cls = k == 2 ? "near-pole" : "at-switch";
+        }
+        else if (k == 4)
+        {
+            // soft unit vector on the axis: x = y = 0, |z| = 1 - d with |z|^2 - 1 inside the
+            // documented soft tolerance (3e-12)
+            double d = g.loguniform(1e-16, 1.2e-12);
+            rot = {0, 0, sgn * (1 - d)};
+            cls = "pole-soft-unit";
+        }
+        else if (k == 5)
+        {
+            static double const ax[6][3]
+                = {{1, 0, 0}, {-1, 0, 0}, {0, 1, 0}, {0, -1, 0}, {0, 0, 1}, {0, 0, -1}};
+            auto const* a = ax[g.integer(0, 5)];
+            rot = {a[0], a[1], a[2]};
+            cls = "axis";
+        }
+        else
+        {
+            rot = random_unit();
+            cls = "random";
+        }
+        try
+        {
+            auto r = rotate(dir, rot);
+            double a[3] = {r[0], r[1], r[2]};
+            bool fin = std::isfinite(a[0]) && std::isfinite(a[1]) && std::isfinite(a[2]);
+            double err = fin ? norm_err(a) : inf;
+            json w = {{"dir", jhex(dir.data(), 3)}, {"rot", jhex(rot.data(), 3)},
+                      {"dir_dec", verif::jarr3(dir)}, {"rot_dec", verif::jarr3(rot)},
+                      {"result", jarr_d(a, 3)}, {"norm_error", fin ? json(err) : json("nan")},
+                      {"tolerance", tol_make_unit}, {"seed", C.args.seed}, {"index", i},
+                      {"class", cls}};
+            if (!fin)
+                rep.violation("C15/unit-vector/rotate/" + cls,
+                              "rotate() returned a non-finite vector for soft-unit inputs", w);
+            else if (!(err <= tol_make_unit))
+                rep.violation("C15/unit-vector/rotate/" + cls,
+                              "rotate() result is not a unit vector", w);
+            else
+            {
+                rep.held("rotate/" + cls);
+                worst_rot = std::max(worst_rot, err);
+                // recorded, not judged (not part of C15): polar angle w.r.t. rot preserved
+                long double dp = (long double)r[0] * rot[0] + (long double)r[1] * rot[1]
+                                 + (long double)r[2] * rot[2];
+                double pe = double(std::fabs(dp - dir[2]));
+                if (cls == "near-pole" || cls == "at-switch")
+                    worst_polar_near = std::max(worst_polar_near, pe);
+                else if (cls != "pole-soft-unit" && cls != "pole-subeps")
+                    worst_polar = std::max(worst_polar, pe);
+            }
+        }
+        catch (DebugError const& e)
+        {
+            rep.inconclusive("debug-assert: " + verif::describe(e));
+            rep.observe("assert:" + verif::describe(e));
+        }
+    }
+    rep.observe_max("from_spherical_norm_error_max (tol 1.8e-15)", worst_fs);
+    rep.observe_max("rotate_norm_error_max (tol 1.3e-15)", worst_rot);
+    rep.observe_max("rotate_polar_angle_cos_error_max (not judged)", worst_polar);
+    rep.observe_max("rotate_polar_angle_cos_error_max_near_pole (not judged)", worst_polar_near);
+}
+}  // namespace
+
+int main(int argc, char** argv)
+{
+    auto args = verif::parse_args(argc, argv);
+    if (args.property.empty())
+        args.property = "C15";
+    if (args.property != "C15")
+    {
+        std::cerr << "dist_engine serves C15 only\n";
+        return 2;
+    }
+    verif::Report rep("C15", "dist", args);
+    rep.set_rule(
+        "case = one sample drawn from one distribution object at one parameter point (its "
+        "support, finiteness and number of 32-bit words drawn are judged online), plus one case "
+        "per statistical test (chi-square on exact bin probabilities of the analytic CDF/PMF "
+        "with >=100 expected per bin and geometric tail bins; exact-variance z-tests of mean "
+        "and variance) per point, plus deterministic from_spherical/rotate cases and "
+        "EnergyLossHelper model-selection cases. Streams per point: plain random (N = 1e5 quick, "
+        "1e6-4e6 thorough, x10-30 right above the Poisson switch-over), hostile (runs of extreme "
+        "words, p = 0.02 and 0.25, N/4 each) and ~190 scripted streams that put canonical 0, "
+        "2^-53, 1/4, 1/2, 3/4, 1-2^-52, 1-2^-53 at each of the first six draws / in runs. A "
+        "coverage cell is (distribution or routine x parameter regime/branch); parameter points "
+        "are fixed at branch thresholds (Poisson lambda 16, gamma alpha 1, helper kappa / "
+        "2-sigma / Tmax=2Tcut / E0 switches, truncated-normal acceptance limits) and drawn from "
+        "the seed inside each regime. Non-trivial = at least one sample judged.");
+    rep.assume("glibc libm (log, exp, sin, cos, erfc, lgamma) accurate to the stated few ulp");
+    rep.assume("the analytic targets are the ones written in the classes' doc comments; for "
+               "PoissonDistribution above lambda = 16 the documented target is the Gaussian "
+               "approximation rounded to nearest (as G4Poisson, negative values -> 0)");
+    rep.assume("a sample equal to an excluded end point (or within the derived rounding slack) is "
+               "the rounding of an in-support real value and is not judged");
+
+    std::string why;
+    if (!dstat::self_check(why))
+    {
+        std::cerr << "dist_engine: special-function self check failed: " << why << "\n";
+        return 2;
+    }
+    rep.observe("special_function_self_check_passed");
+
+    Ctx C{args, rep};
+    C.asan = args.get("variant", "plain") == "asan";
+    C.only = args.get("only", "");
+    verif::Rng g(verif::mix_seed(args.seed, 0xC15));
+    try
+    {
+        points_uniform(C, g);
+        points_exponential(C, g);
+        points_normal(C, g);
+        points_gamma(C, g);
+        points_poisson(C, g);
+        points_reciprocal(C, g);
+        points_inverse_square(C, g);
+        points_radial(C, g);
+        points_isotropic(C);
+        points_box(C, g);
+        points_bernoulli(C, g);
+        points_rejection(C, g);
+        points_selector(C, g);
+        points_delta(C);
+        points_tsai(C, g);
+        points_eloss_direct(C, g);
+        {
+            ElossWorld W;
+            points_eloss_helper(C, W, g);
+        }
+        if (C.only.empty() || C.only == "direction")
+            direction_cases(C, g);
+    }
+    catch (std::exception const& e)
+    {
+        std::cerr << "dist_engine: harness failure: " << e.what() << "\n";
+        return 2;
+    }
+    return rep.finish();
+}
